@@ -128,6 +128,26 @@ def build():
     return req, {'retry.json': json.dumps({'methodConfig': entries}, indent=1)}, cells
 
 
+def doubled_option_job(ctx):
+    """retry-config given twice: the last file is the one that counts (gapic/utils/options.py: "Just use the last config
+    specified"); the first one names the same methods with other codes, back-off and timeouts."""
+    from google.protobuf.compiler import plugin_pb2
+    req, of, cells = build()
+    decoy = json.loads(of['retry.json'])
+    for e in decoy['methodConfig']:
+        e['timeout'] = '123s'
+        if 'retryPolicy' in e:
+            e['retryPolicy'] = dict(maxAttempts=2, initialBackoff='9s', maxBackoff='9s', backoffMultiplier=1, retryableStatusCodes=['DATA_LOSS'])
+    r = plugin_pb2.CodeGeneratorRequest()
+    r.CopyFrom(req)
+    r.parameter = req.parameter.replace('retry-config=@retry.json@', 'retry-config=@decoy.json@,retry-config=@retry.json@')
+    part = [dict(c, id='doubled-option/' + c['id']) for c in cells
+            if c['id'] in ('single/UNAVAILABLE', 'timeout=5s/policy=False', 'policy/fractional', 'unnamed/Ret', 'stream/policy+timeout')]
+    return dict(id='retry/doubled-option', req=r.SerializeToString(), opt_files=dict(of, **{'decoy.json': json.dumps(decoy)}),
+                probe='mc.probes.retry', probe_args=dict(package=names.import_package(P), proto_package=P, cells=part, all_codes=CODES,
+                                                         depth=3, seed=ctx.seed), _cells=part)
+
+
 def make_jobs(ctx, only=None):
     req, of, cells = build()
     if only:
@@ -140,6 +160,11 @@ def make_jobs(ctx, only=None):
             jobs.append(dict(id=f'retry/{k}', req=req.SerializeToString(), opt_files=of, probe='mc.probes.retry',
                              probe_args=dict(package=names.import_package(P), proto_package=P, cells=part, all_codes=CODES,
                                              depth=4 if not ctx.thorough else 5, seed=ctx.seed), _cells=part))
+    if not only or any(c.startswith('doubled-option/') for c in only['cells']):
+        dj = doubled_option_job(ctx)
+        if only:
+            dj['_cells'] = dj['probe_args']['cells'] = [c for c in dj['_cells'] if c['id'] in only['cells']]
+        jobs.append(dj)
     return jobs
 
 
